@@ -30,6 +30,9 @@ type Obl struct {
 	Finding *Finding
 	Site    *SpecCtx // state at the obligation (call site): known-finding predicates may be stated over it
 	Src     string   // human-readable text of what is being proved
+	// postconditions: the path conditions of the function's return sites (mutually exclusive, together the guard).
+	// An obligation the solvers do not decide over the merged exit state is tried again once per return site.
+	RetCases []string
 }
 
 type Enc struct {
